@@ -7,6 +7,9 @@ open M_c03
      kf  identity of the public key the node carries
      ta  the algorithm that TBS was really signed with (0 = ECDSA: verification does not look at the OID)
      p3  issuedBefore(RFC_3280) of the node's notBefore;  dn  validateDateRange verdict "now"
+   An optional 29th field is the serialNumber (hex octets, "e" = empty, "-" or absent = unknown: a placeholder).
+   vk / ak lines carry CRL tokens  ci:iss:au:ap:ex:nu:co:ss:up:sf:ta:serials  (see h_chain.c; sf = identity of the key
+   that really signed the CRL, ta = its algorithm, serials = '.'-separated hex of the revoked serial numbers, "-" none).
    argv[1] = "pinned" selects the model of the unrepaired code (default: repaired). *)
 let fx = not (Array.length Sys.argv > 1 && Sys.argv.(1) = "pinned")
 let ni s = n_of_int (int_of_string s)
@@ -15,7 +18,9 @@ let zi s = z_of_int (int_of_string s)
 type node = { c : cert; tbs_signer : int; tbs_alg : int }
 let parse_node (tok : string) : node =
   let f = Array.of_list (String.split_on_char ':' tok) in
-  if Array.length f <> 28 then failwith "node";
+  if Array.length f <> 28 && Array.length f <> 29 then failwith "node";
+  let serial = if Array.length f = 29 && f.(28) <> "-" then (if f.(28) = "e" then [] else bytes_of_hex f.(28))
+               else [n_of_int 255; n_of_int 255; n_of_int (int_of_string f.(0))] in
   let i k = int_of_string f.(k) in
   let b = i 0 in
   let tbs = if i 2 >= 0 then i 2 else b in
@@ -23,47 +28,72 @@ let parse_node (tok : string) : node =
   { c = { c_subj = ni f.(6); c_iss = ni f.(7); c_tbs = n_of_int tbs; c_sig = n_of_int sg; c_alg = ni f.(5);
           c_key = ni f.(24); c_ver = zi f.(8); c_ca = zi f.(9); c_pathlen = zi f.(10); c_ku = ni f.(11);
           c_eku = ni f.(12); c_eku_crit = (i 13 <> 0); c_ak_len = ni f.(14); c_ak_val = ni f.(15);
-          c_sk_len = ni f.(16); c_sk_val = ni f.(17); c_rev = zi f.(22); c_pre3280 = zi f.(26);
+          c_sk_len = ni f.(16); c_sk_val = ni f.(17); c_serial = serial; c_crldist = false; c_pre3280 = zi f.(26);
           c_date_now = zi f.(27); c_fl0 = ni f.(18); c_st0 = zi f.(19) };
     tbs_signer = i 23; tbs_alg = i 25 }
 
 (* psVerifySig instantiated from the case's ground truth: the signature bytes are the untouched
    signature of the very TBS the node carries, that TBS was signed by the key the issuer carries,
    with the algorithm the node declares *)
-let mk_sig_ok (nodes : node list) : n -> n -> n -> n -> bool =
-  let tbl = List.map (fun nd -> (int_of_n nd.c.c_tbs, (nd.tbs_signer, nd.tbs_alg))) nodes in
+type kc = { r : crl; by_ : int; up : bool; crl_signer : int; crl_alg : int }
+let parse_crl (idx : int) (tok : string) : kc =
+  let f = Array.of_list (String.split_on_char ':' tok) in
+  if Array.length f <> 12 then failwith "crl";
+  let i k = int_of_string f.(k) in
+  let ci = i 0 in
+  let sg = (1000 + (if i 7 >= 0 then i 7 else ci)) * 2 + (if i 6 = 1 then 1 else 0) in
+  let serials = if f.(11) = "-" then [] else
+    List.map (fun h -> if h = "e" then [] else bytes_of_hex h) (String.split_on_char '.' f.(11)) in
+  { r = { r_id = nat_of_int idx; r_iss = ni f.(1); r_tbs = n_of_int (1000 + ci); r_sig = n_of_int sg; r_alg = ni f.(10);
+          r_auth = (i 2 <> 0); r_expired = (i 4 <> 0); r_next = z_of_int (if i 5 = 1 || i 5 = 2 then -1 else 0); r_serials = serials };
+    by_ = i 3; up = (i 8 <> 0); crl_signer = i 9; crl_alg = i 10 }
+
+let mk_sig_ok (nodes : node list) (crls : kc list) : n -> n -> n -> n -> bool =
+  let tbl = List.map (fun nd -> (int_of_n nd.c.c_tbs, (nd.tbs_signer, nd.tbs_alg))) nodes
+            @ List.map (fun k -> (int_of_n k.r.r_tbs, (k.crl_signer, k.crl_alg))) crls in
   fun key tbs sg alg ->
     let t = int_of_n tbs in
     match List.assoc_opt t tbl with
     | None -> false
     | Some (signer, talg) -> int_of_n sg = 2 * t && signer <> 0 && int_of_n key = signer && (talg = 0 || int_of_n alg = talg)
 
-let show (r : vres) : string =
+let show (r : vres) (nk : int) (gone : crl list) (aurcs : z list) : string =
   let f = match r.v_found with FNone -> "-" | FChain i -> "c" ^ string_of_int (int_of_nat i) | FAnchor i -> "a" ^ string_of_int (int_of_nat i) in
-  Printf.sprintf "rc=%d found=%s st=%s fl=%s" (int_of_z r.v_rc) f
+  let all = r.v_k.k_cache @ gone in
+  let ka = if nk = 0 then "-" else String.concat "," (List.init nk (fun i ->
+    match List.find_opt (fun c -> int_of_nat c.r_id = i) all with
+    | Some c -> Printf.sprintf "%d%d" (b2i c.r_auth) (b2i c.r_expired) | None -> "??")) in
+  let ints l = if l = [] then "-" else String.concat "," (List.map (fun x -> string_of_int (int_of_z x)) l) in
+  Printf.sprintf "rc=%d found=%s st=%s fl=%s rl=%s ka=%s au=%s" (int_of_z r.v_rc) f
     (String.concat "," (List.map (fun s -> string_of_int (int_of_z s.st)) r.v_states))
     (String.concat "," (List.map (fun s -> string_of_int (int_of_n s.fl)) r.v_states))
+    (ints (List.rev r.v_k.k_log)) ka (ints aurcs)
 
 let rec take k l = if k = 0 then [] else match l with [] -> [] | x :: r -> x :: take (k - 1) r
 let rec drop k l = if k = 0 then l else match l with [] -> [] | _ :: r -> drop (k - 1) r
 
+let run (isvc : bool) (rv : bool) (nc : int) (na : int) (nk : int) (toks : string list) : string =
+  if List.length toks <> nc + na + nk || nc < 1 then "BADCASE" else
+  let nodes = List.map parse_node (take (nc + na) toks) in
+  let crls = List.mapi parse_crl (drop (nc + na) toks) in
+  let so = mk_sig_ok nodes crls in
+  let cs = List.map (fun x -> x.c) nodes in
+  let arr = Array.of_list cs in
+  let load = List.map (fun k -> ((k.r, (if k.by_ >= 0 && k.by_ < Array.length arr then Some arr.(k.by_) else None)), k.up)) crls in
+  let ((cache, aurcs), gone) = load_crls so load [] [] [] in
+  let k0 = { k_cache = cache; k_log = [] } in
+  let res = if isvc then validate so fx rv (take nc cs) (drop nc cs) k0
+            else auth_api so fx (take nc cs) (match drop nc cs with [] -> None | a :: _ -> Some a) k0 in
+  show res nk gone aurcs
+
 let () = iter_lines (fun l ->
   match split_ws l with
   | "cert" :: _ -> "cert"
-  | "vc" :: rv :: nc :: na :: toks ->
-      let nc = int_of_string nc and na = int_of_string na in
-      if List.length toks <> nc + na || nc < 1 then "BADCASE" else
-      let nodes = List.map parse_node toks in
-      let so = mk_sig_ok nodes in
-      let cs = List.map (fun x -> x.c) nodes in
-      show (validate so fx (rv = "1") (take nc cs) (drop nc cs))
-  | "ac" :: nc :: na :: toks ->
-      let nc = int_of_string nc and na = int_of_string na in
-      if List.length toks <> nc + na || nc < 1 then "BADCASE" else
-      let nodes = List.map parse_node toks in
-      let so = mk_sig_ok nodes in
-      let cs = List.map (fun x -> x.c) nodes in
-      show (auth_api so fx (take nc cs) (match drop nc cs with [] -> None | a :: _ -> Some a))
+  | "vc" :: rv :: nc :: na :: toks -> run true (rv = "1") (int_of_string nc) (int_of_string na) 0 toks
+  | "ac" :: nc :: na :: toks -> run false false (int_of_string nc) (int_of_string na) 0 toks
+  | "vk" :: rv :: nc :: na :: nk :: toks -> run true (rv = "1") (int_of_string nc) (int_of_string na) (int_of_string nk) toks
+  | "ak" :: nc :: na :: nk :: toks -> run false false (int_of_string nc) (int_of_string na) (int_of_string nk) toks
+  | "crl" :: _ -> "crl"
   | [ "ps"; _year; _der; ver; ain; aout; csl; cs; cil; ci; unk; now; nb; na ] ->
       let d = { p_ver = zi ver; p_alg_in = ni ain; p_alg_out = ni aout; p_cn_s_len = ni csl; p_cn_s = ni cs;
                 p_cn_i_len = ni cil; p_cn_i = ni ci; p_unk_crit = (unk = "1") } in
